@@ -1195,22 +1195,38 @@ func validateProposedConfigEntryInServiceGraph(
 		sid := structs.NewServiceID(kindName.Name, &kindName.EnterpriseMeta)
 		checkChains[sid] = struct{}{}
 
-		iter, err := tx.Get(tableConfigEntries, indexLink, sid)
-		if err != nil {
-			return err
-		}
-		for raw := iter.Next(); raw != nil; raw = iter.Next() {
-			entry := raw.(structs.ConfigEntry)
-			switch entry.GetKind() {
-			case structs.ServiceRouter, structs.ServiceSplitter, structs.ServiceResolver:
-				svcID := structs.NewServiceID(entry.GetName(), entry.GetEnterpriseMeta())
-				checkChains[svcID] = struct{}{}
-			case structs.IngressGateway:
-				ingress, ok := entry.(*structs.IngressGatewayConfigEntry)
-				if !ok {
-					return fmt.Errorf("type %T is not an ingress gateway config entry", entry)
+		// A chain can reach this service through any number of other chains
+		// (router a -> splitter b -> this service), so follow the "link" index
+		// transitively: every chain that can reach the edited name is
+		// recompiled, not only the ones that name it directly.
+		seenIngress := make(map[configentry.KindName]struct{})
+		queue := []structs.ServiceID{sid}
+		for len(queue) > 0 {
+			iter, err := tx.Get(tableConfigEntries, indexLink, queue[0])
+			if err != nil {
+				return err
+			}
+			queue = queue[1:]
+			for raw := iter.Next(); raw != nil; raw = iter.Next() {
+				entry := raw.(structs.ConfigEntry)
+				switch entry.GetKind() {
+				case structs.ServiceRouter, structs.ServiceSplitter, structs.ServiceResolver:
+					svcID := structs.NewServiceID(entry.GetName(), entry.GetEnterpriseMeta())
+					if _, ok := checkChains[svcID]; !ok {
+						checkChains[svcID] = struct{}{}
+						queue = append(queue, svcID)
+					}
+				case structs.IngressGateway:
+					ingress, ok := entry.(*structs.IngressGatewayConfigEntry)
+					if !ok {
+						return fmt.Errorf("type %T is not an ingress gateway config entry", entry)
+					}
+					kn := configentry.NewKindNameForEntry(ingress)
+					if _, ok := seenIngress[kn]; !ok {
+						seenIngress[kn] = struct{}{}
+						checkIngress = append(checkIngress, ingress)
+					}
 				}
-				checkIngress = append(checkIngress, ingress)
 			}
 		}
 	}
